@@ -121,9 +121,6 @@ _RAW = {
         "reached only when `start < end` (early return on start >= end); end <= lines.len()",
     "R7c|fixtures::scanner::<impl fixtures::FixtureDatabase>::load_plugin_from_entry_point|expect on parent":
         "path.parent() of a path whose file_name() was just matched against Some(\"__init__.py\"): a path with a file name has a parent",
-    "R7c|handle_fixtures_unused|unwrap on to_string_pretty":
-        "serde_json::to_string_pretty of Vec<serde_json::Value> built by json!({\"file\": String, \"fixture\": String}): string keys and "
-        "string values only, serialisation cannot fail",
     "R7c|main|expect on build":
         "tokio runtime construction at process start-up, before any request is served (not reachable from document content or requests)",
 }
